@@ -1,12 +1,13 @@
 import RpmVerif.Driver.Common
 import RpmVerif.Model.Header
 import RpmVerif.Spec.Canon
-/-! Driver for C01. Ops `pkgrt BYTES`, `metart BYTES` — observation
-`ok w=<fnv of written bytes> len=<n> re=<reparse equals first parse> rw=<rewrite identical>` | `err`. -/
+/-! Driver for C01. Ops `pkgrt BYTES`, `metart BYTES`, `pkgrtv clear|newempty BYTES` (signature header cleared /
+replaced by `new_empty()` in memory before writing) — observation
+`ok w=<fnv of written bytes> len=<n> re=<reparse equals the value written> rw=<rewrite identical>` | `err`. -/
 namespace RpmVerif.Driver.C01
 open RpmVerif.Hdr RpmVerif.Driver
 
-def ops : List String := ["pkgrt", "metart"]
+def ops : List String := ["pkgrt", "metart", "pkgrtv"]
 
 def obsOf (w : Bytes) (re rw : Bool) : String :=
   s!"ok w={hex16 (fnv w)} len={w.length} re={boolStr re} rw={boolStr rw}"
@@ -47,6 +48,27 @@ def handle (op : String) (args : List String) (impl : String) : String :=
           let v := if impl.startsWith "ok" then verdictOf (impl == want) else "dontcare"
           answer m v s!"meta-accepted-sig{m0.signature.entries.length}-hdr{min m0.header.entries.length 3}"
         | o => answer (if o.isPanic then "panic" else "err") (if impl.startsWith "ok" then "fails:accepted-what-model-rejects" else "dontcare") ("meta-" ++ errBranch o)
+  | [variant, hb] =>
+    -- `pkgrtv`: parse, `signature.clear()` / `signature = new_empty()`, write. Model: `Header.clear` / `Header.empty`
+    -- (C01.cleared_fixpoint). Spec, from the input bytes alone: lead ++ 16-byte empty intro ++ canonical bytes from the
+    -- main header on (boundary recomputed with `Canon.hdrLen`), and a fixpoint.
+    match (if op == "pkgrtv" then bytesOfHex hb else none) with
+    | none => badReq "hex"
+    | some bs =>
+      match parsePackage bs with
+      | .ok p0 =>
+        let sig : Header := if variant == "clear" then p0.md.signature.clear else Header.empty
+        let p : Package := ⟨{ p0.md with signature := sig }, p0.content⟩
+        let w := writePackage p
+        let (re, rw) := match parsePackage w with
+          | .ok p2 => (p2 == p, writePackage p2 == w)
+          | _ => (false, false)
+        let r := bs.drop 96
+        let hdrStart := 96 + Canon.hdrLen r + Canon.sigPadOf r
+        let want := obsOf (bs.take 96 ++ writeIntro 0 0 ++ (Canon.canon bs).drop hdrStart) true true
+        let v := if impl.startsWith "ok" then verdictOf (impl == want) else "fails:variant-rejected"
+        answer (obsOf w re rw) v s!"variant-{variant}-sig{min p0.md.signature.entries.length 3}-hdr{min p0.md.header.entries.length 3}"
+      | o => answer (if o.isPanic then "panic" else "err") (if impl.startsWith "ok" then "fails:accepted-what-model-rejects" else "dontcare") (errBranch o)
   | _ => badReq "args"
 
 end RpmVerif.Driver.C01
